@@ -141,24 +141,24 @@ fn ref_kind(t: &[Tok; MAXTOK], nt: usize) -> (RefKind, usize, usize) {
 // even on a 1-byte payload): the stub
 // records the slice it is handed and returns a sentinel. Dual-mode oracle: CBMC mode checks the
 // recorded slice, the native replay compares with the real conversion.
-static mut LOSSY_CALLS: usize = 0;
-static mut LOSSY_LEN: usize = 0;
-static mut LOSSY_IN: [u8; PRECAP] = [0; PRECAP];
+static mut LOSSY_CALLS: crate::verif_models::Tg<usize> = crate::verif_models::Tg { v: 0, tag: 0x5eedc0de0000003f };
+static mut LOSSY_LEN: crate::verif_models::Tg<usize> = crate::verif_models::Tg { v: 0, tag: 0x5eedc0de00000040 };
+static mut LOSSY_IN: crate::verif_models::Tg<[u8; PRECAP]> = crate::verif_models::Tg { v: [0; PRECAP], tag: 0x5eedc0de00000041 };
 fn stub_lossy(v: &[u8]) -> std::borrow::Cow<'_, str> {
     unsafe {
-        LOSSY_CALLS += 1;
-        LOSSY_LEN = v.len();
+        LOSSY_CALLS.v += 1;
+        LOSSY_LEN.v = v.len();
         let mut i = 0;
-        while i < v.len() && i < PRECAP { LOSSY_IN[i] = v[i]; i += 1; }
+        while i < v.len() && i < PRECAP { LOSSY_IN.v[i] = v[i]; i += 1; }
     }
     if v.is_empty() { std::borrow::Cow::Borrowed("") } else { std::borrow::Cow::Borrowed("x") }
 }
 #[cfg(not(test))]
 fn lossy_text_ok(text: &str, payload: &[u8]) -> bool {
     unsafe {
-        if LOSSY_CALLS != 1 || LOSSY_LEN != payload.len() { return false; }
+        if LOSSY_CALLS.v != 1 || LOSSY_LEN.v != payload.len() { return false; }
         let mut i = 0;
-        while i < payload.len() { if LOSSY_IN[i] != payload[i] { return false; } i += 1; }
+        while i < payload.len() { if LOSSY_IN.v[i] != payload[i] { return false; } i += 1; }
     }
     text == "x"
 }
@@ -457,3 +457,34 @@ skel!(c06_v_p2pk_leading_op, 40, 40, false, false, kani::any(), [b(0x76), b(0x21
 skel!(c06_v_multi_4keys, 16, 40, false, false, kani::any(), [b(0x52), b(0x01), s(1), b(0x01), s(1), b(0x01), s(1), b(0x01), s(1), b(0x54), b(0xae)]);
 //@ id=C06,C14 tier=quick name=c06_v_seven_ops timeout=600 role=variants bound=seven-non-push-opcodes
 skel!(c06_v_seven_ops, 16, 40, false, false, kani::any(), [b(0x76), b(0x76), b(0x76), b(0x76), b(0x76), b(0x76), b(0x76)]);
+
+// ---- C14 long sweep on the fork path: [head] k x [t] -------------------------------------------
+macro_rules! long_sweep_fork {
+    ($name:ident, $k:expr, $head:expr, $t:expr, $unw:expr) => {
+        #[kani::proof]
+        #[kani::unwind($unw)]
+        #[kani::stub(<bitcoin::hashes::sha256::HashEngine as bitcoin::hashes::HashEngine>::input, ghost::stub_engine_input)]
+        #[kani::stub(<bitcoin::hashes::sha256d::Hash as bitcoin::hashes::Hash>::from_engine, ghost::stub_sha256d_fin)]
+        #[kani::stub(<bitcoin::hashes::hash160::Hash as bitcoin::hashes::Hash>::from_engine, ghost::stub_hash160_fin)]
+        #[kani::stub(bitcoin::base58::encode, ghost::stub_b58)]
+        #[kani::stub(std::string::String::from_utf8_lossy, stub_lossy)]
+        fn $name() {
+            const L: usize = 1 + $k;
+            let mut s = [0u8; L];
+            s[0] = $head;
+            let mut i = 0;
+            while i < $k { s[1 + i] = $t; i += 1; }
+            let ver: u8 = kani::any();
+            let r = eval_from_bytes_custom(&s, ver);
+            assert!(r.pattern == ScriptPattern::NotRecognised && r.address.is_none(), "C06:type_unrecognised");
+            kani::cover!(true, "long script evaluated without panic");
+            core::mem::forget(r);
+        }
+    };
+}
+//@ id=C14,C06 tier=quick name=c14_sweep_fork_ops300 timeout=1800 role=long_sweep bound=OP_DUP+300xOP_CHECKSIG fsarr=1024
+long_sweep_fork!(c14_sweep_fork_ops300, 300, 0x76, 0xac, 310);
+//@ id=C14,C06 tier=quick name=c14_sweep_fork_nops300 timeout=1800 role=long_sweep bound=OP_DUP+300xOP_NOP fsarr=1024
+long_sweep_fork!(c14_sweep_fork_nops300, 300, 0x76, 0x61, 310);
+//@ id=C14,C06 tier=thorough name=c14_sweep_fork_zeros300 timeout=2400 role=long_sweep bound=OP_2+300xOP_0 fsarr=1024
+long_sweep_fork!(c14_sweep_fork_zeros300, 300, 0x52, 0x00, 310);
